@@ -178,3 +178,8 @@ Theorem bridge_t_accept_recv c t d acc p : t_pos t = TRecv acc -> t_pni t = Some
   let t1 := t_set_pni t (gen_t_pni_next_2 p) in
   if negb (pni d =? gen_t_pni_next_2 p) then t_stop t1 (TErr ProtocolError) else t_recv_chain c t1 d acc.
 Proof. intros Hp Hn. unfold t_accept. rewrite Hp, Hn. destruct (bridge_pni_next p) as (_ & _ & _ & ->). reflexivity. Qed.
+
+(* ---- activate resets the packet number: a used object starts like a fresh one ---- *)
+Theorem bridge_activate p_old t_old app :
+  ini_activate p_old = gen_i_activate_pni /\ t_pni (tgt_activate t_old app) = gen_t_activate_pni.
+Proof. split; reflexivity. Qed.
